@@ -11,6 +11,8 @@ import (
 	"time"
 
 	"verifharness/absx"
+	"verifharness/antecheck"
+	"verifharness/fmtcheck"
 	"verifharness/l1"
 	"verifharness/l2"
 	"verifharness/walk"
@@ -106,6 +108,10 @@ func main() {
 	out := fs.String("out", "-", "report path")
 	keep := fs.Int("keep", 50, "mismatches to keep in the report")
 	file := fs.String("file", "", "replay file")
+	layouts := fs.String("layouts", "", "TLC output with LAYOUT lines (fmt-check)")
+	vectors := fs.String("vectors", "", "pinned vectors file (fmt-check)")
+	rounds := fs.Int("rounds", 50, "seeded fills per case (fmt-check)")
+	writeVectors := fs.Bool("write-vectors", false, "regenerate the pinned vectors file")
 	_ = fs.Parse(os.Args[2:])
 
 	defer func() {
@@ -148,6 +154,20 @@ func main() {
 			conc := l1.NewConc(*seed, parseScale(*scale))
 			return l2Impl{l2.NewChain(conc, l2Cfg(g.Meta))}
 		}, *keep)
+		writeJSON(*out, rep)
+	case "ante-check":
+		rep, err := antecheck.Run(*edges, *seed)
+		if err != nil {
+			fmt.Fprintln(os.Stderr, err)
+			os.Exit(2)
+		}
+		writeJSON(*out, rep)
+	case "fmt-check":
+		rep, err := fmtcheck.Run(*edges, *layouts, *vectors, *seed, *rounds, *writeVectors)
+		if err != nil {
+			fmt.Fprintln(os.Stderr, err)
+			os.Exit(2)
+		}
 		writeJSON(*out, rep)
 	case "val-walk":
 		g, err := walk.Load(*edges)
